@@ -247,7 +247,7 @@ func (g *Gen) frameCheckAppend(st *State, s *Val, n string, pos token.Pos, text 
 	g.inFrameEval = true
 	defer func() { g.inFrameEval = false }()
 	inplace := "(<= (+ " + s.Len + " " + n + ") " + s.Cap + ")"
-	g.oblige("frame", "append "+text, pos, st.reach, or(not(inplace), eq(n, "0"), g.allowedArr(st, s.Arr)))
+	g.oblige("frame", text, pos, st.reach, or(not(inplace), eq(n, "0"), g.allowedArr(st, s.Arr)))
 }
 
 func (g *Gen) frameCheckCopy(st *State, d *Val, n string, pos token.Pos, text string) {
@@ -256,7 +256,7 @@ func (g *Gen) frameCheckCopy(st *State, d *Val, n string, pos token.Pos, text st
 	}
 	g.inFrameEval = true
 	defer func() { g.inFrameEval = false }()
-	g.oblige("frame", "copy "+text, pos, st.reach, or(eq(n, "0"), g.allowedArr(st, d.Arr)))
+	g.oblige("frame", text, pos, st.reach, or(eq(n, "0"), g.allowedArr(st, d.Arr)))
 }
 
 func (g *Gen) frameCheckMap(st *State, m string, pos token.Pos, text string) {
